@@ -230,8 +230,12 @@ def run(ctx):
     for i in range(nscripts):
         cfg = "proofs" if i % 2 == 0 else cfg_names[1 + (i // 2) % 3]
         inc = cfg != "proofs+nonincremental"
-        s = sg.gen_script(rng, incremental=inc if not inc else (rng.random() < 0.9), size=size if rng.random() < 0.8 else 2,
-                          ite=rng.random() < 0.15)
+        if inc and i % 4 == 0:
+            # several open push levels over level-0 facts: final conflicts over >= 2 activation assumptions
+            s = sg.gen_deep_history(rng, size=size)
+        else:
+            s = sg.gen_script(rng, incremental=inc if not inc else (rng.random() < 0.9), size=size if rng.random() < 0.8 else 2,
+                              ite=rng.random() < 0.15)
         seed = rng.randint(1, 10 ** 6)
         pre = "".join(o % dict(seed=seed) + "\n" for o in PROOF_CONFIGS[cfg])
         jobs.append(dict(cfg=cfg, logic=s["logic"], family=s["family"], pre=pre, body=s["body"]))
@@ -561,6 +565,9 @@ def classify(ans, pr):
             return ("elided-constant-literal", "step %d of the chain of cls_%d resolves on the pivot '%s', but literals over the constants true/false "
                     "are not printed in clauses, so the pivot does not occur in the printed premises" % (k + 1, n, piv))
         return ("bad-pivot", "step %d of the chain of cls_%d: the pivot %s does not occur with opposite signs in the two premises" % (k + 1, n, piv))
+    if kind == "WrongResolvent" and names.get(int(w[2])) and names[int(w[2])][2] == []:
+        return ("empty-clause-not-derived", "cls_%s is stated to be the empty clause ('; -') but its chain leaves literals unresolved: the proof "
+                "is not a refutation (its leaves need not be jointly unsatisfiable)" % w[2])
     if kind == "WrongResolvent":
         return ("wrong-resolvent", "the clause stated for cls_%s is not the resolvent of its chain" % w[2])
     if kind == "Unbound":
